@@ -35,7 +35,7 @@ func leafNF(v reflect.Value) interface{} {
 		return v.Bool()
 	case reflect.Int32, reflect.Int64, reflect.Int:
 		return v.Int()
-	case reflect.Uint32, reflect.Uint64:
+	case reflect.Uint32, reflect.Uint64, reflect.Uint:
 		return v.Uint()
 	case reflect.Float32, reflect.Float64:
 		f := v.Float()
